@@ -396,6 +396,8 @@ def run(ctx):
     nrows, ncalls = table_binding(ctx)
     nscan = exposure(ctx)
     label_histories(ctx)
+    from checks import mc_common
+    mc_common.location_part(ctx)
     process_exposure(ctx)
     vlib.write_evidence(ctx, "model_checking",
                         "TLC enumerates the complete decision table of LocationLabel.tla (states/transitions); every row "
